@@ -169,6 +169,14 @@ def cmp(a, b, tol):
         return float("inf")
     if a.size == 0:
         return 0.0
+    fin = np.isfinite(a) & np.isfinite(b)
+    if not np.all(fin):
+        # overflow (inf/nan) at the same positions in subject and twin is "equal"; anywhere else it is a difference
+        if not np.array_equal(np.isfinite(a), np.isfinite(b)):
+            return float("inf")
+        a, b = a[fin], b[fin]
+        if a.size == 0:
+            return 0.0
     sc = max(float(np.max(np.abs(a))), float(np.max(np.abs(b))), 1e-6)     # absolute floor: numerical zeros are equal
     d = float(np.max(np.abs(a - b))) / sc
     return d if np.isfinite(d) else float("inf")
